@@ -182,6 +182,29 @@ func NtorServer(X [32]byte, y *Keypair, ident Identity) (keySeed, auth [32]byte,
 	return keySeed, auth, ok1 && ok2
 }
 
+// NtorServerForged is what an impostor without the identity private key can
+// compute when the bridge line's identity public key is a low-order point:
+// EXP(B,x) is then the all-zero string for every client key x, so the second
+// exponentiation is simply filled in with zeros.
+func NtorServerForged(X [32]byte, y *Keypair, B [32]byte, id [20]byte) (keySeed, auth [32]byte) {
+	e1, _ := x25519(y.Priv, X)
+	var zero [32]byte
+	return ntorFinish(e1, zero, B, X, y.Pub, id)
+}
+
+// ServerReplyForged builds a complete response around NtorServerForged.
+func ServerReplyForged(ident Identity, eph *Keypair, req *ClientRequestInfo, pad []byte) (resp []byte, keySeed [32]byte) {
+	seed, auth := NtorServerForged(req.X, eph, ident.Pub, ident.NodeID)
+	key := hmacKey(ident)
+	var b []byte
+	b = append(b, eph.Rep[:]...)
+	b = append(b, auth[:]...)
+	b = append(b, pad...)
+	b = append(b, markMac(key, eph.Rep[:])...)
+	b = append(b, markMac(key, b, HourString(req.Hour))...)
+	return b, seed
+}
+
 // KDF expands KEY_SEED into n bytes of key material.
 func KDF(keySeed []byte, n int) []byte {
 	r := hkdf.New(sha256.New, keySeed, []byte(protoID+":key_extract"), []byte(protoID+":key_expand"))
